@@ -23,7 +23,10 @@ EXPLANATION = (
     '`impl std::error::Error for HpkeError` iff std. R17.3 cfg-independence of behaviour: the canonical MIR (spans, '
     'line numbers and std/alloc path spelling normalised) of every function body present in two subsets is identical, '
     'so there is no cfg-dependent code inside bodies and verdicts obtained on the all-features build transfer to '
-    'every subset. R17.4 no verification hooks were added to the repository (guard-off tree = tree). Not decided: '
+    'every subset. R17.4 no verification hooks were added to the repository (guard-off tree = tree). R17.5 the Cargo '
+    'feature table declares exactly the six independent features the matrix enumerates. R17.6 cfg universe: every '
+    'cfg predicate in src/ is built from those features, `test` and `docsrs` only — behaviour cannot depend on '
+    'debug_assertions, target_*, panic strategy or other cfgs the analysed builds would not exhibit. Not decided: '
     'running each subset\'s tests / comparing run-time outputs per subset.')
 TRUSTED = ['rustc/cargo (stable 1.95 for the matrix, nightly 1.97 for fact extraction)']
 ASSUME = ['identical MIR implies identical behaviour given identical dependency versions (Cargo.lock is shared by all subsets)']
@@ -230,9 +233,115 @@ def check_no_hooks(rep, repo, rule='R17.4'):
               'no verification hooks in the repository: the guard-off tree is the tree')
 
 
+def strip_comments(src):
+    """remove // and /* */ comments and string/char literals (good enough for attribute scanning)"""
+    out = []
+    i, n = 0, len(src)
+    while i < n:
+        c = src[i]
+        if src.startswith('//', i):
+            j = src.find('\n', i)
+            i = n if j < 0 else j
+        elif src.startswith('/*', i):
+            depth, i = 1, i + 2
+            while i < n and depth:
+                if src.startswith('/*', i):
+                    depth += 1
+                    i += 2
+                elif src.startswith('*/', i):
+                    depth -= 1
+                    i += 2
+                else:
+                    i += 1
+        elif c == '"':
+            i += 1
+            buf = []
+            while i < n and src[i] != '"':
+                if src[i] == '\\':
+                    i += 1
+                buf.append(src[i] if i < n else '')
+                i += 1
+            i += 1
+            out.append('"%s"' % ''.join(buf))       # keep feature names
+        else:
+            out.append(c)
+            i += 1
+    return ''.join(out)
+
+
+def check_cfg_universe(rep, repo, rule='R17.6'):
+    """behaviour may only depend on cargo features (covered by the matrix), `test` and `docsrs`: every cfg predicate in
+    src/ is built from feature = "<known feature>", test, docsrs with any/all/not — no debug_assertions, target_*,
+    panic, overflow_checks, … that the analysed configurations would not exhibit"""
+    allowed_idents = {'any', 'all', 'not', 'feature', 'test', 'docsrs'}
+    n = 0
+    bad = []
+    for root, dirs, fs in os.walk(os.path.join(repo, 'src')):
+        for f in sorted(fs):
+            if not f.endswith('.rs'):
+                continue
+            path = os.path.join(root, f)
+            txt = strip_comments(open(path, errors='replace').read())
+            for m in re.finditer(r'\b(cfg_attr|cfg!?)\s*\(', txt):
+                i = m.end()
+                depth = 1
+                j = i
+                while j < len(txt) and depth:
+                    if txt[j] == '(':
+                        depth += 1
+                    elif txt[j] == ')':
+                        depth -= 1
+                    j += 1
+                inner = txt[i:j - 1]
+                if m.group(1) == 'cfg_attr':
+                    # predicate = first top-level comma-separated argument
+                    d, k = 0, 0
+                    for k, ch in enumerate(inner):
+                        if ch == '(':
+                            d += 1
+                        elif ch == ')':
+                            d -= 1
+                        elif ch == ',' and d == 0:
+                            break
+                    inner = inner[:k]
+                n += 1
+                idents = set(re.findall(r'[A-Za-z_][A-Za-z0-9_]*', re.sub(r'"[^"]*"', '', inner)))
+                feats = set(re.findall(r'feature\s*=\s*"([^"]*)"', inner))
+                unk = (idents - allowed_idents) | {('feature=' + x) for x in feats if x not in FEATURES}
+                if unk:
+                    line = txt[:m.start()].count('\n') + 1
+                    bad.append('%s:%d cfg(%s)' % (os.path.relpath(path, repo), line, inner.strip()[:60]))
+    rep.check(not bad, rule, '-', 'cfg-universe', '%d cfg predicates scanned; outside the analysed universe: %s' % (n, bad[:4]),
+              'every cfg predicate uses only feature = "alloc|std|x25519|p256|p384|p521", test, docsrs (any/all/not)', None)
+    rep.floor(rule, 'cfg predicates in src/', n, 20)
+
+
+def check_feature_universe(rep, repo, rule='R17.5'):
+    """the [features] table of Cargo.toml declares exactly the six features the matrix enumerates (+ default)"""
+    txt = open(os.path.join(repo, 'Cargo.toml')).read()
+    m = re.search(r'^\[features\]\s*$(.*?)(?=^\[)', txt, re.M | re.S)
+    names = set()
+    table = {}
+    if m:
+        for line in m.group(1).splitlines():
+            line = line.split('#', 1)[0].strip()
+            mm = re.match(r'^([A-Za-z0-9_-]+)\s*=\s*\[(.*)\]\s*$', line)
+            if mm:
+                names.add(mm.group(1))
+                table[mm.group(1)] = [x.strip().strip('"') for x in mm.group(2).split(',') if x.strip()]
+    rep.check(names == set(FEATURES) | {'default'}, rule, 'Cargo.toml', 'feature-names', sorted(names),
+              'features = default + %s (the matrix enumerates exactly their subsets)' % FEATURES, None)
+    # a feature must not silently enable another one of the six (the subsets would no longer be independent)
+    cross = {k: [x for x in v if x in FEATURES] for k, v in table.items() if k != 'default'}
+    cross = {k: v for k, v in cross.items() if v}
+    rep.check(not cross, rule, 'Cargo.toml', 'features-independent', cross, 'no feature enables another of the six features', None)
+
+
 def run(ctx):
     rep = ctx.rep
     repo = ctx.repo
+    check_feature_universe(rep, repo)
+    check_cfg_universe(rep, repo)
     thorough = ctx.tier == 'thorough'
     subsets = all_subsets() if thorough else covering_array()
     rep.extra['subsets'] = [cfg_name(s) for s in subsets]
